@@ -17,7 +17,7 @@ passed; (R09.3) FarEnough / NBC_FarEnough read the sibling's `centroid` accessor
 (active ones; or all unless check_only_active) of the target level, keep a candidate only if the strict `>` predicate holds
 for every one of them, with threshold min_distance resp. factor x the parent's own nbc_mean_distance; (R09.4) the NBC
 generator exports the mean distance of the same clustering it takes the candidates from; (R09.5) no deme class overrides
-the accessor."""
+the accessor. Round-3/4 extensions: sibling filters that drop sleeping demes, a threshold read through a leaked loop variable, lazily evaluated generator expressions in the sibling loop, positional literals that land on the wrong constructor parameter."""
 NOTE = """Floating-point values of norms and means are not evaluated; numpy.linalg.norm / numpy.mean semantics are trusted."""
 TECHNIQUE = "memo typestate over CFGs + def-use provenance and comparator/quantifier shape rules on the filter classes (ast)"
 EXPLANATION = """
